@@ -41,20 +41,26 @@ VARIABLES m, pre, churn, v, now, phase, cmds,
 vars == <<m, pre, churn, v, now, phase, cmds, wk>>
 AllWeak == {"hasNode", "initialized", "notDeleting", "notMarked", "notNominated", "noNodeDnd", "poolKnown", "podDnd", "podPdb",
             "consolidatable", "poolKind", "consolidateAfterSet", "policy", "noBuffer", "drifted",
-            "waiveWithoutTgp", "waiveGraceful", "nominatedOffByOne", "dndOffByOne", "noRevalidation"}
+            "waiveWithoutTgp", "waiveGraceful", "nominatedOffByOne", "dndOffByOne", "noRevalidation", "costsCancel"}
 
 \* ---------------------------------------------------------------- the base node: X is the method's best candidate
 BasePod == [key |-> "default/px", active |-> TRUE, dndKind |-> "none", dndSec |-> -1, started |-> 100, evictKind |-> TRUE,
-            npdb |-> 0, pdbAllowed |-> 1, pdbWaived |-> FALSE, resched |-> TRUE]
+            npdb |-> 0, pdbAllowed |-> 1, pdbWaived |-> FALSE, resched |-> TRUE, cost |-> 1, costPos |-> TRUE]
+\* cost: the pod's eviction cost as a small integer (1 = default, -10 = clamped strongly negative, 10 = clamped large);
+\* costPos = cost > 0 is what the guard reads; the sum only matters to the "costsCancel" spec mutation
+WithCost(p, c) == [p EXCEPT !.cost = c, !.costPos = c > 0]
 \* a second plain pod: keeps X non-empty when its first pod is made terminal (only emptiness wants X empty)
 PlainPod == [BasePod EXCEPT !.key = "default/pxb"]
 DsPod == [key |-> "default/dsx", active |-> TRUE, dndKind |-> "true", dndSec |-> -1, started |-> 100, evictKind |-> TRUE,
-          npdb |-> 0, pdbAllowed |-> 1, pdbWaived |-> FALSE, resched |-> FALSE]
+          npdb |-> 0, pdbAllowed |-> 1, pdbWaived |-> FALSE, resched |-> FALSE, cost |-> 1, costPos |-> TRUE]
+NegPod == [WithCost(BasePod, -10) EXCEPT !.key = "default/pxn"]
 Base(mm) == [managed |-> TRUE, hasNode |-> TRUE, initialized |-> TRUE, deleting |-> FALSE, nodeDeleting |-> FALSE,
              marked |-> FALSE, nominatedUntil |-> -1, nodeDnd |-> FALSE, poolLabel |-> TRUE, poolKnown |-> TRUE,
              static |-> (mm = "staticdrift"), caSet |-> TRUE, policy |-> "WhenEmptyOrUnderutilized",
              consolidatable |-> IF mm = "staticdrift" THEN "Absent" ELSE "True",
-             drifted |-> IF Eventual(mm) THEN "True" ELSE "Absent", tgp |-> FALSE, buffer |-> 0, pods |-> <<BasePod>>]
+             drifted |-> IF Eventual(mm) THEN "True" ELSE "Absent", tgp |-> FALSE, buffer |-> 0,
+             \* emptiness wants X empty: its pod has a non-positive eviction cost
+             pods |-> <<IF mm = "emptiness" THEN WithCost(BasePod, -10) ELSE BasePod>>]
 
 \* ---------------------------------------------------------------- blockers (canonical order; one per group)
 \* <<name, group>>; names ending in Expired / Edge / Ok / Waived... are the timing and leniency controls
@@ -70,6 +76,8 @@ Blockers == <<
   <<"pdbZero", "pdb">>, <<"pdbOk", "pdb">>, <<"pdbMulti", "pdb">>, <<"pdbZeroWaived", "pdb">>, <<"pdbZeroTolerating", "pdb">>,
   <<"pdbZeroOtherNs", "pdb">>, <<"pdbZeroAll", "pdb">>, <<"pdbZeroNilSel", "pdb">>,
   <<"notConsolidatable", "cons">>, <<"consolidatableEdge", "cons">>, <<"consolidatableFalse", "cons">>,
+  <<"costMixedNeg", "cost">>, <<"costMixedPrio", "cost">>, <<"costAllNonPos", "cost">>, <<"costEdgeZero", "cost">>,
+  <<"costEdgeTiny", "cost">>, <<"costLargePos", "cost">>, <<"costPrioOutweighs", "cost">>,
   <<"poolKindFlip", "poolKind">>, <<"caNever", "ca">>, <<"caNeverStale", "ca">>, <<"whenEmpty", "policy">>, <<"buffer", "buffer">>,
   <<"notDrifted", "drift">>, <<"tgp", "tgp">>, <<"poolTgp", "poolTgp">> >>
 Name(i) == Blockers[i][1]
@@ -111,6 +119,17 @@ Apply(b, vv, t) ==
       [] b = "pdbZeroOtherNs"     -> vv
       [] b = "pdbZeroAll"         -> Pod1(vv, LAMBDA p : [p EXCEPT !.npdb = 1, !.pdbAllowed = 0])   \* empty selector = every pod
       [] b = "pdbZeroNilSel"      -> vv                                                            \* nil selector = no pod
+      \* eviction costs: a positive-cost pod next to a strongly negative one (they must not cancel) ...
+      [] b \in {"costMixedNeg", "costMixedPrio"} ->
+             IF Len(vv.pods) = 0 THEN vv
+             ELSE [vv EXCEPT !.pods = Append(@, IF m = "emptiness" THEN PlainPod ELSE NegPod)]
+      \* ... every pod non-positive (empty), exactly zero (empty), the smallest positive cost, a large one, a negative
+      \* deletion cost outweighed by a high priority (positive)
+      [] b = "costAllNonPos"      -> Pod1(vv, LAMBDA p : WithCost(p, -10))
+      [] b = "costEdgeZero"       -> Pod1(vv, LAMBDA p : WithCost(p, 0))
+      [] b = "costEdgeTiny"       -> Pod1(vv, LAMBDA p : WithCost(p, 1))
+      [] b = "costLargePos"       -> Pod1(vv, LAMBDA p : WithCost(p, 10))
+      [] b = "costPrioOutweighs"  -> Pod1(vv, LAMBDA p : WithCost(p, 10))
       [] b = "notConsolidatable"  -> [vv EXCEPT !.consolidatable = "Absent"]       \* last pod event CA-1 seconds ago
       [] b = "consolidatableEdge" -> vv                                            \* last pod event exactly CA seconds ago
       [] b = "consolidatableFalse"-> [vv EXCEPT !.consolidatable = IF vv.managed THEN "False" ELSE @]
@@ -124,15 +143,24 @@ Apply(b, vv, t) ==
       [] b = "poolTgp"            -> vv       \* only the pool template has a terminationGracePeriod: the NodeClaim's counts
 
 \* ---------------------------------------------------------------- the controller's rule (with spec mutations)
+\* what makes X the method's candidate in the first place (not part of the guard): emptiness takes empty nodes, the
+\* consolidation methods non-empty ones.  Spec mutation "costsCancel": emptiness sums the costs instead of looking pod by pod
+RECURSIVE SumCost(_, _)
+SumCost(ps, i) == IF i > Len(ps) THEN 0 ELSE (IF ps[i].resched THEN ps[i].cost ELSE 0) + SumCost(ps, i + 1)
+EmptyW(vv) == IF wk = "costsCancel" THEN SumCost(vv.pods, 1) <= 0 ELSE ~NonEmpty(vv)
+Wants(mm, vv) == /\ (mm = "emptiness" => EmptyW(vv))
+                 /\ (mm \in {"multi", "single"} => ~EmptyW(vv))
 HoldsW(c, mm, vv, t) ==
     IF c = wk THEN TRUE
     ELSE IF c \in {"podDnd", "podPdb"} /\ wk = "waiveWithoutTgp" THEN Eventual(mm) \/ Holds(c, mm, vv, t)
     ELSE IF c \in {"podDnd", "podPdb"} /\ wk = "waiveGraceful" THEN vv.tgp \/ Holds(c, mm, vv, t)
+    ELSE IF c = "policy" /\ wk = "costsCancel" THEN (Consolidation(mm) /\ ~EmptyW(vv)) => vv.policy # "WhenEmpty"
     ELSE IF c = "notNominated" /\ wk = "nominatedOffByOne" THEN ~(vv.nominatedUntil > t + 1)
     ELSE IF c = "podDnd" /\ wk = "dndOffByOne"
          THEN Waived(mm, vv) \/ \A i \in DOMAIN vv.pods : ~PodDndBlocks(vv.pods[i], t + 1)
     ELSE Holds(c, mm, vv, t)
-EligibleW(mm, vv, t) == \A i \in DOMAIN Conjuncts : Applies(Conjuncts[i], vv) => HoldsW(Conjuncts[i], mm, vv, t)
+EligibleW(mm, vv, t) == /\ Wants(mm, vv)
+                        /\ \A i \in DOMAIN Conjuncts : Applies(Conjuncts[i], vv) => HoldsW(Conjuncts[i], mm, vv, t)
 
 \* ---------------------------------------------------------------- closed model
 Init == /\ wk \in (IF Weak = "*" THEN AllWeak ELSE {Weak})
@@ -141,7 +169,8 @@ Init == /\ wk \in (IF Weak = "*" THEN AllWeak ELSE {Weak})
 LastIdx == IF pre = <<>> THEN 0 ELSE pre[Len(pre)]
 Block(i) == /\ phase = "config" /\ Len(pre) < MaxPre /\ i > LastIdx
             /\ \A j \in DOMAIN pre : Group(pre[j]) # Group(i)
-            /\ (Len(pre) >= 1 => (PairMode = "all" \/ Name(i) \in {"tgp", "poolTgp"}))
+            /\ (Len(pre) >= 1 => (PairMode = "all" \/ Name(i) \in {"tgp", "poolTgp"}
+                                  \/ (Name(i) = "whenEmpty" /\ Group(pre[1]) = "cost")))
             /\ pre' = Append(pre, i) /\ v' = Apply(Name(i), v, now)
             /\ UNCHANGED <<m, churn, now, phase, cmds, wk>>
 
@@ -180,7 +209,8 @@ Protected(mm, vv, t) ==
        /\ ~(mm \in {"drift", "staticdrift"} /\ vv.tgp)          \* ... only drift overrides, only with a TGP
     \/ /\ mm \in {"emptiness", "multi", "single"}
        /\ (vv.consolidatable # "True" \/ vv.static \/ ~vv.caSet)
-    \/ (mm \in {"multi", "single"} /\ HasResched(vv) /\ vv.policy = "WhenEmpty")
+    \/ /\ mm \in {"emptiness", "multi", "single"} /\ vv.policy = "WhenEmpty"      \* WhenEmpty: only empty nodes, and a node is
+       /\ \E i \in DOMAIN vv.pods : vv.pods[i].resched /\ vv.pods[i].cost > 0   \* empty only if NO pod has a positive cost
     \/ (mm = "emptiness" /\ vv.buffer > 0)
     \/ (mm = "drift" /\ (vv.static \/ vv.drifted # "True"))
     \/ (mm = "staticdrift" /\ (~vv.static \/ vv.drifted # "True"))
